@@ -151,6 +151,19 @@ def extract():
         if not re.search(r"=\s*reader_task\s*\(", arms) or not re.search(r"_\s*=\s*conn_token\.cancelled\(\)\s*=>", arms): raise ExtractError("select! arms")
         return True
 
+    def f_no_timers():
+        # neither the connection task nor the reader loop has a timer / sleep / timeout / retry arm: the model's
+        # reader only moves on frames, the token and the channel.  (The writer's drain deadlines bound delivery,
+        # which the property does not speak about.)
+        rb = fn_body(whole, "reader_task")
+        TIMER = r"\b(sleep|sleep_until|timeout|timeout_at|interval|interval_at|Instant|Duration|Sleep|Interval)\b"
+        if re.search(TIMER, body) or re.search(TIMER, rb): raise ExtractError("timer construct in the connection task / reader loop")
+        sel = re.search(r"tokio::select!\s*\{", body)
+        arms = body[sel.end():match_brace(body, sel.end() - 1) - 1]
+        if len(re.findall(r"=>", arms)) != 2: raise ExtractError("select! does not have exactly two arms")
+        if re.search(r"\bselect!\s*\{", rb): raise ExtractError("select! inside reader_task")
+        return True
+
     def f_fetch_add():
         return bool(re.search(r"let\s+peer_id_value\s*=\s*config\s*\.\s*peer_id_counter\s*\.\s*fetch_add\(\s*1\s*,", body)) \
             and not re.search(r"peer_id_counter\s*\.\s*(store|load|swap|compare_exchange|fetch_update)", body)
@@ -177,6 +190,7 @@ def extract():
         "peerIdFetchAdd": fact(f_fetch_add),
         "hooksInRegistrationOrder": fact(f_appended),
         "cancelRacesWholeReader": fact(f_cancel_races_reader),
+        "noTimersInConnectionLoops": fact(f_no_timers),
         "unrecognised": unrecognised,
         "anchors": {"writer_spawn": f"{SRC}:{line_of(spawn)}", "guard": f"{SRC}:{line_of(guard)}",
                     "connect_loops": f"{SRC}:{line_of(h1)},{line_of(h2)}",
@@ -208,6 +222,8 @@ def render(f):
           f"def hooksInRegistrationOrder : Bool := {b(f['hooksInRegistrationOrder'])}",
           "/-- the connection token is raced against the whole `reader_task(..)` future in one `select!` (so a reader suspended in `outbound_tx.send` is abandoned on cancel) -/",
           f"def cancelRacesWholeReader : Bool := {b(f['cancelRacesWholeReader'])}",
+          "/-- no timer / sleep / timeout arm in `handle_connection_with_config` or `reader_task`; the `select!` has exactly two arms -/",
+          f"def noTimersInConnectionLoops : Bool := {b(f['noTimersInConnectionLoops'])}",
           "", "end Repe.Gen.Lifecycle"]
     return "\n".join(L) + "\n"
 
